@@ -397,6 +397,7 @@ class World(object):
             'ideal': NativeFunc('ideal', _ideal),
             'call_ret': NativeFunc('call_ret', _call_ret),
             'call_raised': NativeFunc('call_raised', _call_raised),
+            'call_kwarg': NativeFunc('call_kwarg', _call_kwarg),
             'call_errno': NativeFunc('call_errno', _call_errno),
             'urandom_draws': NativeFunc('urandom_draws', _urandom_draws),
             'was_called': NativeFunc('was_called', lambda ex, a, k: a[0] in ex.ghost.get('call_args', {})),
@@ -561,6 +562,14 @@ def _call_ret(ex, a, k):
     if a[0] not in d:
         raise Unsupported('call_ret: %s did not return on this path' % a[0])
     return d[a[0]]
+
+
+def _call_kwarg(ex, a, k):
+    """keyword argument a[1] of the last call of the callee replaced by contract a[0]; a[2] if it was not given"""
+    env = ex.ghost.get('call_args', {}).get(a[0])
+    if env is None:
+        raise Unsupported('call_kwarg: %s was not called on this path' % a[0])
+    return env.get(a[1], a[2])
 
 
 def _call_raised(ex, a, k):
